@@ -183,6 +183,18 @@ class Interp:
             elif isinstance(st, ast.Expr):
                 continue
         self._dataclass(c, node, module, frame)
+        # other class decorators are functions handed the class (they may add methods to it), innermost first
+        for d in reversed(node.decorator_list):
+            nm = ast.unparse(d.func if isinstance(d, ast.Call) else d).split(".")[-1]
+            if nm in ("dataclass", "total_ordering"):
+                continue
+            try:
+                dec = self.eval(d, Frame(self, module, module))
+                r = self.call(dec, [c], {})
+            except (AnalysisError, SymRaise) as exc:
+                raise AnalysisError(f"class decorator @{ast.unparse(d)} on {c.qual} is not understood: {exc}")
+            if r is not c:
+                raise AnalysisError(f"class decorator @{ast.unparse(d)} on {c.qual} replaces the class")
         self._module_level_patches(c, module)
         return c
 
@@ -293,6 +305,13 @@ class Interp:
                             return True
                 if isinstance(n, ast.Call) and isinstance(n.func, ast.Name) and n.func.id == "setattr" and n.args \
                         and isinstance(n.args[0], ast.Name) and n.args[0].id == cname:
+                    return True
+            # a module-level call that is handed the class itself (a helper that adds methods to it): f(Cls) / Cls = f(Cls)
+            call = st.value if isinstance(st, (ast.Expr, ast.Assign)) and isinstance(st.value, ast.Call) else None
+            if call is not None and isinstance(call.func, ast.Name) and call.func.id not in ("print", "isinstance", "issubclass") \
+                    and any(isinstance(a_, ast.Name) and a_.id == cname for a_ in call.args):
+                r_ = self.src.resolve(module, call.func.id)
+                if r_ and r_[0] == "func":
                     return True
             return False
         after = False
